@@ -33,6 +33,18 @@ CHECKS.update({
                 text="Every history nesting aligned::<N>, scoped_aligned::<N> and scoped for every (outer, inner) pair of supported minimum alignments up to depth 5 (quick) with allocations whose sizes are not multiples of N, chunk switches while lowered, deallocation and exits by return / unwinding; the position must be a multiple of N at entry and after every allocation, a multiple of the outer alignment after aligned, blocks made before / inside / after must stay disjoint and intact."),
 })
 
+CHECKS.update({
+    "C11": dict(engine="pure-mc", ref="§3 C11", technique="exhaustive enumeration of a boundary lattice of inputs of the real bump functions against an unbounded-integer specification",
+                note="Bounded input lattice (listed in the evidence) enumerated completely; functions compiled from /repo/src/bumping.rs by #[path]; the i128 specification in harness/pure-mc is trusted; hint wiring into RawBump is covered by C17's typed-vs-generic lock-step.",
+                text="bump_up, bump_down, bump_prepare_up and bump_prepare_down, compiled from the repository's own source file with debug assertions and overflow checks, are evaluated on the complete product of window bases (next to 0, 2^31, 2^47, 2^63, top of the address space) x start offsets x capacities (incl. the negative-capacity dummy ranges) x sizes x power-of-two alignments x minimum alignments x all truthful hint triples, and compared with an i128 specification (fits iff a suitably aligned block exists; nearest block; new position; hint independence; no overflow/panic)."),
+    "C15": dict(engine="mutcoll-mc", ref="§3 C15", technique="explicit-state exploration of exclusive-borrow collection life cycles on the real arena with per-phase position snapshots",
+                text="For every prelude of <= 2 operations and every life cycle in the parameter space {MutBumpVec, MutBumpVecRev, MutBumpString, alloc_iter_mut(_rev), alloc_fmt_mut, alloc_cstr_fmt_mut} x 6 element layouts x capacity x pushes (beyond two chunk capacities) x reserve/extend with wrong size hints x end {drop, unwind from a user callback, finalise}, the bump position of every chunk is recorded at every phase: it must not move while filling or after drop/unwind, finalising may advance exactly one chunk by at most contents + alignment padding, and the result must hold exactly the pushed elements (reversed for rev) inside the bytes the position moved over."),
+    "C17": dict(engine="arena-mc", ref="§3 C17", technique="explicit-state exploration in lock-step: every history through a reference and 12 alternative entry points, comparing per-step observable effects",
+                text="Every history over a 27-symbol alphabet up to depth 4 (quick) is executed through the reference entry point and through 12 alternatives (&, &&, WithoutDealloc, WithoutShrink, both nestings, dyn BumpAllocatorCoreScope, dyn BumpAllocatorCore, panicking twins, generic layout path instead of typed fast paths, BumpScope by value instead of Bump) from identical initial states on a deterministic substrate; after every step the chunk index and offset of the returned block, its layout, allocated(), count() and remaining() must agree. The known divergence of trait-object reserve is reported as KNOWN-FINDING."),
+})
+CHECKS["C12"]["engine"] = "pure-mc + arena-mc"
+CHECKS["C12"]["text"] = "Pure part: ChunkSizeConfig compiled from /repo/src/chunk/size_config.rs is evaluated on the complete product of allocator value layouts x direction x minimum chunk size x capacity layouts (sizes up to the isize limit, aligns to 2^29) x extra granted bytes x every base-address phase: computed sizes are multiples of 16 (and of the header alignment downwards), the layout fits for every phase and min_align, growth is >= 2x-16, overflow yields None only near the address-space limit. " + CHECKS["C12"]["text"]
+
 NOT_YET = {}
 
 def main():
@@ -62,7 +74,9 @@ def main():
             "add_only": True,
         },
         "engines": [
-            {"name": "arena-mc", "path": "harness/arena-mc", "serves_properties": [p for p in sorted(CHECKS) if CHECKS[p]["engine"] == "arena-mc"], "kind_free_text": "explicit-state exploration of real Bump/BumpScope over an instrumented deterministic base allocator"},
+            {"name": "arena-mc", "path": "harness/arena-mc", "serves_properties": [p for p in sorted(CHECKS) if "arena-mc" in CHECKS[p]["engine"]], "kind_free_text": "explicit-state exploration of real Bump/BumpScope over an instrumented deterministic base allocator"},
+            {"name": "mutcoll-mc", "path": "harness/mutcoll-mc", "serves_properties": ["C15"], "kind_free_text": "the arena explorer built for configurations that carry the exclusive-borrow collection drivers"},
+            {"name": "pure-mc", "path": "harness/pure-mc", "serves_properties": ["C11", "C12"], "kind_free_text": "exhaustive input-lattice enumeration of the bump and chunk-size arithmetic compiled from the repository's source files"},
         ],
         "checks": checks,
         "not_applicable": na,
